@@ -27,6 +27,7 @@ type stdVariant struct {
 	MustRR     [3]string
 	NoReceived [3]string
 	Timeout    int
+	Entry2Pool bool // listen entry 2 (UDP only) gets a UDP backend (.36:5080) and a TCP backend (.39:5080): requests leave over another transport than they came in on
 	SharedTCP  bool // listen entry 1 also gets the TCP backend .33:5080 of listen entry 0 (one backend behind two listen entries)
 	DynPool    bool // listen entry 0 also gets the TCP backends a host name resolves to (.40 and .41, port 5080), fed through the resolver's own entry point
 	Two        bool // a second entry under proxies: (svc-b.test, listener .4:5066/5067, backend .37:5080) whose host table differs from the first one's and from the global one
@@ -138,6 +139,9 @@ func newStdSvc(v stdVariant) (*stdSvc, error) {
 			bs = append(bs, "tcp://"+ip(33)+":5080")
 		}
 		cfg.Listens[0].Backends = bs
+	}
+	if v.Entry2Pool {
+		cfg.Listens[2].Backends = []string{"udp://" + ip(36) + ":5080", "tcp://" + ip(39) + ":5080"}
 	}
 	if v.SharedTCP {
 		cfg.Listens[1].Backends = append(cfg.Listens[1].Backends, "tcp://"+ip(33)+":5080")
